@@ -721,6 +721,12 @@ def sites_of(f, only_blocks=None):
                 ops = [f.expr_of_operand(o) for o in t['args']]
                 yield {'fn': fn, 'bb': bb, 'kind': 'panic:' + c.split('::')[-1], 'ops': ops, 'raw': t['args'], 'at': t.get('at'), 'term': t,
                        'callee': c, 'exp': t.get('exp')}
+            elif t.get('target') is None and not c.startswith(('core::intrinsics::', 'std::intrinsics::')):
+                # a call that never returns and is none of the known panic entry points (this list missed std::panicking::begin_panic -
+                # `panic!("literal")` in the 2018 edition - until a seeded change made it matter): a site all the same, fail closed
+                ops = [f.expr_of_operand(o) for o in t['args']]
+                yield {'fn': fn, 'bb': bb, 'kind': 'panic:diverges:' + c.split('::')[-1], 'ops': ops, 'raw': t['args'], 'at': t.get('at'), 'term': t,
+                       'callee': c, 'exp': t.get('exp')}
 
 
 _FXG = [None]
@@ -1689,4 +1695,4 @@ def _calls_dominating(f, bb):
     return out
 
 # as-built addendum
-EXPLANATION += ' As built (DESIGN 9.2): As built: D-CURSOR, D-POS (through nested finders), D-GUARD, D-CALLER, D-INFALLIBLE discharges; recursive components of the call graph are sites (identified by entry functions); the stack of pending inputs is bounded; reviewed entries may carry whole-function predicates (@...) that are re-evaluated on every run.'
+EXPLANATION += ' As built (DESIGN 9.2): As built: every call that never returns is a site (std::panicking::begin_panic included); D-CURSOR, D-POS (through nested finders), D-GUARD, D-CALLER, D-INFALLIBLE discharges; recursive components of the call graph are sites (identified by entry functions); the stack of pending inputs is bounded; reviewed entries may carry whole-function predicates (@...) that are re-evaluated on every run.'
